@@ -14,13 +14,19 @@ package main
 import (
 	"bufio"
 	"bytes"
+	"errors"
 	"io"
+	"os"
+	"path/filepath"
+	"runtime"
 	"sort"
+	"sync/atomic"
 	"testing/iotest"
 	"time"
 
 	"git.metabarcoding.org/obitools/obitools4/obitools4/pkg/obiformats"
 	"git.metabarcoding.org/obitools/obitools4/obitools4/pkg/obiiter"
+	"git.metabarcoding.org/obitools/obitools4/obitools4/pkg/obioptions"
 	"git.metabarcoding.org/obitools/obitools4/obitools4/pkg/obiseq"
 	log "github.com/sirupsen/logrus"
 )
@@ -38,6 +44,14 @@ type c01case struct {
 	TimeMs  int    `json:"time_ms"`
 	Full    bool   `json:"full"`  // kind read: OptionsFullFileBatch (the whole file delivered as ONE batch)
 	FlatB   int    `json:"flatb"` // kind read: size of the read buffer of ReadGenbank / ReadEMBL (0 = production size)
+	FailAt  int    `json:"failat"` // reader kind ioerr: the transport fails (I/O error, not EOF) after this many bytes
+	Feat    bool   `json:"feat"`   // kind parse: flat-file parsers called with withFeatureTable = true
+	Name    string `json:"name"`   // kind fromfile: name of the file written (the extension is what the user would see)
+	Api     string `json:"api"`    // kind fromfile: seqs | fasta | fastq | genbank | embl | fastseq
+	Stdin   bool   `json:"stdin"`  // kind fromfile: the file is os.Stdin of the call (Read*FromStdin)
+	G       int    `json:"g"`      // kinds guess / fromfile: size of the buffer of OBIMimeTypeGuesser (0 = production size, 1 MiB)
+	Batch   int    `json:"batch"`  // kind fromfile, api fastseq: OptionsBatchSize (the kseq reader cuts its batches itself)
+	NoHdr   bool   `json:"nohdr"`  // kind read / fromfile: no title-line annotation parser (OptionsFastSeqHeaderParser(nil))
 }
 
 type c01rec struct {
@@ -49,6 +63,7 @@ type c01rec struct {
 	Taxid int    `json:"taxid"`
 	Sci   []byte `json:"sci"`
 	HasT  bool   `json:"hast"`
+	Feat  []byte `json:"feat,omitempty"`
 }
 
 type c01size struct {
@@ -72,6 +87,12 @@ type c01obs struct {
 	// that same (arrival) order
 	Orders  []int    `json:"orders,omitempty"`
 	Arrived []c01rec `json:"arrived,omitempty"`
+	// kind guess: the MIME type answered by OBIMimeTypeGuesser, the number of bytes the rebuilt reader delivers and
+	// whether they are the bytes of the input
+	Back  []byte `json:"back,omitempty"` // kind buf: the bytes the reader returned by xopen.Buf delivers
+	Mime  string `json:"mime,omitempty"`
+	NRead int    `json:"nread,omitempty"`
+	Same  bool   `json:"same,omitempty"`
 }
 
 func c01splitter(f string) obiformats.LastSeqRecord {
@@ -92,9 +113,9 @@ func c01parser(c c01case) func(string, io.Reader) (obiseq.BioSequenceSlice, erro
 	case "fastq":
 		return obiformats.FastqChunkParser(byte(c.Shift), c.WithQ)
 	case "genbank":
-		return obiformats.GenbankChunkParser(false)
+		return obiformats.GenbankChunkParser(c.Feat)
 	default:
-		return obiformats.EmblChunkParser(false)
+		return obiformats.EmblChunkParser(c.Feat)
 	}
 }
 
@@ -103,6 +124,9 @@ func c01record(s *obiseq.BioSequence) c01rec {
 	if s.HasQualities() {
 		r.HasQ = true
 		r.Qual = bytes.Clone(s.Qualities())
+	}
+	if f := s.Features(); len(f) > 0 {
+		r.Feat = []byte(f)
 	}
 	if s.HasAnnotation() {
 		a := s.Annotations()
@@ -122,13 +146,16 @@ func c01record(s *obiseq.BioSequence) c01rec {
 }
 
 // c01parse runs a chunk parser; log.Fatalf (ExitFunc panics) and run-time panics are both "fatal".
-func c01parse(c c01case, text []byte) (recs []c01rec, fatal bool) {
+func c01parse(c c01case, text []byte, shared ...func(string, io.Reader) (obiseq.BioSequenceSlice, error)) (recs []c01rec, fatal bool) {
 	defer func() {
 		if r := recover(); r != nil {
 			recs, fatal = nil, true
 		}
 	}()
 	p := c01parser(c)
+	if len(shared) > 0 { // the parser a worker of the readers keeps for all the chunks it receives
+		p = shared[0]
+	}
 	seqs, err := p("src", bytes.NewBuffer(bytes.Clone(text)))
 	if err != nil {
 		return nil, true
@@ -147,7 +174,7 @@ func c01sameRecs(a, b []c01rec) bool {
 	for i := range a {
 		x, y := a[i], b[i]
 		if !bytes.Equal(x.Id, y.Id) || !bytes.Equal(x.Def, y.Def) || !bytes.Equal(x.Seq, y.Seq) ||
-			!bytes.Equal(x.Qual, y.Qual) || x.HasQ != y.HasQ || x.Taxid != y.Taxid || !bytes.Equal(x.Sci, y.Sci) || x.HasT != y.HasT {
+			!bytes.Equal(x.Qual, y.Qual) || x.HasQ != y.HasQ || !bytes.Equal(x.Feat, y.Feat) || x.Taxid != y.Taxid || !bytes.Equal(x.Sci, y.Sci) || x.HasT != y.HasT {
 			return false
 		}
 	}
@@ -163,9 +190,58 @@ func (h c01half) Read(p []byte) (int, error) {
 	return h.r.Read(p)
 }
 
-func c01reader(kind string, file []byte) io.Reader {
+// a transport that fails with a genuine error (not io.EOF) after `left` bytes
+var errC01io = errors.New("c01: input/output error")
+
+type c01failing struct {
+	r    io.Reader
+	left int
+}
+
+func (f *c01failing) Read(p []byte) (int, error) {
+	if f.left <= 0 {
+		return 0, errC01io
+	}
+	if len(p) > f.left {
+		p = p[:f.left]
+	}
+	n, err := f.r.Read(p)
+	f.left -= n
+	if err == io.EOF {
+		err = errC01io
+	}
+	return n, err
+}
+
+// log.Fatal met in a goroutine of the library: remembered, the goroutine ends (the process goes on)
+var c01fatal atomic.Bool
+var c01fatalCh = make(chan struct{}, 1)
+
+func c01fatalGoexit() func() {
+	old := log.StandardLogger().ExitFunc
+	c01fatal.Store(false)
+	select {
+	case <-c01fatalCh:
+	default:
+	}
+	log.StandardLogger().ExitFunc = func(int) {
+		c01fatal.Store(true)
+		select {
+		case c01fatalCh <- struct{}{}:
+		default:
+		}
+		runtime.Goexit()
+	}
+	return func() { log.StandardLogger().ExitFunc = old }
+}
+
+func c01reader(kind string, file []byte, failAt ...int) io.Reader {
 	var r io.Reader = bytes.NewReader(file)
 	switch kind {
+	case "ioerr":
+		return &c01failing{r, failAt[0]}
+	case "ioerr-half":
+		return &c01failing{c01half{r}, failAt[0]}
 	case "onebyte":
 		return iotest.OneByteReader(r)
 	case "half":
@@ -190,9 +266,14 @@ type c01chunk struct {
 	raw   []byte
 }
 
-// c01chunks runs the real chunk reader with a buffer of b bytes; hang=true when it does not finish in time.
-func c01chunks(c c01case, b int) (res []c01chunk, hang bool) {
-	ch := obiformats.ReadSeqFileChunk("src", c01reader(c.Rd, c.File), make([]byte, b), c01splitter(c.Fmt))
+// c01chunks runs the real chunk reader with a buffer of b bytes; hang=true when it does not finish in time;
+// fatal=true when the reader goroutine called log.Fatal (reader kinds ioerr*: the transport fails).
+func c01chunks(c c01case, b int) (res []c01chunk, hang bool, fatal bool) {
+	ioerr := len(c.Rd) >= 5 && c.Rd[:5] == "ioerr"
+	if ioerr {
+		defer c01fatalGoexit()()
+	}
+	ch := obiformats.ReadSeqFileChunk("src", c01reader(c.Rd, c.File, c.FailAt), make([]byte, b), c01splitter(c.Fmt))
 	ms := c.TimeMs
 	if ms <= 0 {
 		ms = 4000
@@ -203,14 +284,20 @@ func c01chunks(c c01case, b int) (res []c01chunk, hang bool) {
 		select {
 		case k, ok := <-ch:
 			if !ok {
-				return res, false
+				// (a reader that closes its channel in a deferred call does so when the goroutine ends in log.Fatal:
+				// in the real program the process is gone by then)
+				return res, false, ioerr && c01fatal.Load()
 			}
 			res = append(res, c01chunk{k.Order, k.Raw.Bytes()})
 			if len(res) > 4*len(c.File)+8 {
-				return res, true
+				return res, true, false
+			}
+		case <-c01fatalCh:
+			if ioerr {
+				return res, false, true
 			}
 		case <-timer.C:
-			return res, true
+			return res, true, false
 		}
 	}
 }
@@ -220,15 +307,34 @@ func c01sweep(c c01case) c01obs {
 	o.Recs, o.Fatal = c01parse(c, c.File)
 	for b := c.Bmin; b <= c.Bmax; b++ {
 		sz := c01size{B: b, St: "ok", Chunks: [][3]int{}}
-		chunks, hang := c01chunks(c, b)
+		chunks, hang, dead := c01chunks(c, b)
 		if hang {
 			sz.St = "hang"
+			o.Sizes = append(o.Sizes, sz)
+			continue
+		}
+		if dead { // the chunks delivered before the fatal error: located, not parsed
+			sz.St = "fatal"
+			pos := 0
+			for _, k := range chunks {
+				at := -1
+				if len(k.raw) > 0 && pos <= len(c.File) {
+					at = bytes.Index(c.File[pos:], k.raw)
+				}
+				if at < 0 {
+					sz.St = "fatal-bad"
+					break
+				}
+				sz.Chunks = append(sz.Chunks, [3]int{k.order, pos + at, len(k.raw)})
+				pos += at + len(k.raw)
+			}
 			o.Sizes = append(o.Sizes, sz)
 			continue
 		}
 		pos := 0
 		var recs []c01rec
 		fatal := false
+		worker := c01parser(c) // ONE parser for all the chunks of this chunking, as in _ParseFastqFile & co
 		for _, k := range chunks {
 			at := -1
 			if len(k.raw) > 0 && pos <= len(c.File) {
@@ -241,7 +347,7 @@ func c01sweep(c c01case) c01obs {
 				pos += at + len(k.raw)
 			}
 			if !fatal {
-				r, f := c01parse(c, k.raw)
+				r, f := c01parse(c, k.raw, worker)
 				if f {
 					fatal = true
 				}
@@ -271,45 +377,41 @@ func c01readMs(c c01case) int {
 	return 20000
 }
 
-func c01read(c c01case) (o c01obs) {
-	o.Kind = "read"
-	defer func() {
-		if r := recover(); r != nil {
-			o.Fatal = true
-		}
-	}()
-	var it obiiter.IBioSequence
-	var err error
+func c01opts(c c01case) []obiformats.WithOption {
 	opts := []obiformats.WithOption{obiformats.OptionsParallelWorkers(c.Workers), obiformats.OptionsReadQualities(c.WithQ), obiformats.OptionsFullFileBatch(c.Full)}
-	rd := c01reader(c.Rd, c.File)
-	if c.FlatB > 0 {
-		obiformats.VerifFlatFileChunkSize = c.FlatB
-		defer func() { obiformats.VerifFlatFileChunkSize = 1024 * 1024 * 128 }()
+	if c.NoHdr {
+		opts = append(opts, obiformats.OptionsFastSeqHeaderParser(nil))
 	}
-	switch c.Fmt {
-	case "fasta":
-		it, err = obiformats.ReadFasta(rd, opts...)
-	case "fastq":
-		it, err = obiformats.ReadFastq(rd, opts...)
-	case "genbank":
-		it, err = obiformats.ReadGenbank(rd, opts...)
-	default:
-		it, err = obiformats.ReadEMBL(rd, opts...)
+	if c.Batch > 0 {
+		opts = append(opts, obiformats.OptionsBatchSize(c.Batch))
 	}
-	if err != nil {
-		o.Fatal = true
-		o.Err = err.Error()
-		return o
-	}
+	return opts
+}
+
+// c01collect starts the reader in a goroutine of its own (log.Fatal there or in any goroutine of the library is
+// remembered, see c01fatalGoexit), consumes the iterator and returns the batches by number.
+func c01collect(c c01case, open func() (obiiter.IBioSequence, error)) (o c01obs) {
+	o.Kind = c.Kind
+	defer c01fatalGoexit()()
 	type batch struct {
 		order int
 		recs  []c01rec
 	}
 	var batches []batch
+	var err error
 	done := make(chan struct{})
 	go func() {
-		defer close(done)
-		defer func() { recover() }()
+		defer func() {
+			if r := recover(); r != nil {
+				c01fatal.Store(true)
+			}
+		}()
+		var it obiiter.IBioSequence
+		it, err = open()
+		if err != nil {
+			close(done)
+			return
+		}
 		for it.Next() {
 			b := it.Get()
 			bt := batch{order: b.Order()}
@@ -318,11 +420,32 @@ func c01read(c c01case) (o c01obs) {
 			}
 			batches = append(batches, bt)
 		}
+		close(done)
 	}()
-	select {
-	case <-done:
-	case <-time.After(time.Duration(c01readMs(c)) * time.Millisecond):
-		o.Err = "timeout"
+	deadline := time.After(time.Duration(c01readMs(c)) * time.Millisecond)
+wait:
+	for {
+		select {
+		case <-done:
+			break wait
+		case <-c01fatalCh:
+			o.Err = "log.Fatal"
+			o.Fatal = true
+			time.Sleep(20 * time.Millisecond) // let the other goroutines of this reader end (they may call log.Fatal too)
+			return o
+		case <-deadline:
+			o.Err = "timeout"
+			o.Fatal = true
+			return o
+		}
+	}
+	if err != nil {
+		o.Fatal = true
+		o.Err = "error: " + err.Error()
+		return o
+	}
+	if c01fatal.Load() {
+		o.Err = "log.Fatal"
 		o.Fatal = true
 		return o
 	}
@@ -347,6 +470,117 @@ func c01read(c c01case) (o c01obs) {
 	return o
 }
 
+func c01read(c c01case) c01obs {
+	if c.Shift != 0 && c.Shift != 33 {
+		obioptions.SetInputQualityShift(c.Shift)
+		defer obioptions.SetInputQualityShift(33)
+	}
+	return c01collect(c, func() (obiiter.IBioSequence, error) {
+		opts := c01opts(c)
+		rd := c01reader(c.Rd, c.File, c.FailAt)
+		if c.FlatB > 0 {
+			obiformats.VerifFlatFileChunkSize = c.FlatB
+			defer func() { obiformats.VerifFlatFileChunkSize = 1024 * 1024 * 128 }()
+		}
+		switch c.Fmt {
+		case "fasta":
+			return obiformats.ReadFasta(rd, opts...)
+		case "fastq":
+			return obiformats.ReadFastq(rd, opts...)
+		case "genbank":
+			return obiformats.ReadGenbank(rd, opts...)
+		default:
+			return obiformats.ReadEMBL(rd, opts...)
+		}
+	})
+}
+
+// c01fromfile: the file-name / standard-input entry points of the package (what the commands call), on a file written
+// to a scratch directory under the name the user would give it (plain or compressed: the bytes come ready-made).
+func c01guessBuffer(c c01case) func() {
+	if c.G > 0 {
+		obiformats.VerifMimeGuessBufferSize = c.G
+	}
+	return func() { obiformats.VerifMimeGuessBufferSize = 1024 * 1024 }
+}
+
+func c01fromfile(c c01case) c01obs {
+	defer c01guessBuffer(c)()
+	dir, err := os.MkdirTemp("", "c01f")
+	if err != nil {
+		return c01obs{Kind: "fromfile", Fatal: true, Err: "harness: " + err.Error()}
+	}
+	defer os.RemoveAll(dir)
+	path := filepath.Join(dir, "no-such-file.fasta")
+	if c.Name != "" {
+		path = filepath.Join(dir, c.Name)
+		if err := os.WriteFile(path, c.File, 0o644); err != nil {
+			return c01obs{Kind: "fromfile", Fatal: true, Err: "harness: " + err.Error()}
+		}
+	} // an empty name: the file does not exist
+	if c.Stdin {
+		f, err := os.Open(path)
+		if err != nil {
+			return c01obs{Kind: "fromfile", Fatal: true, Err: "harness: " + err.Error()}
+		}
+		old := os.Stdin
+		os.Stdin = f
+		defer func() { os.Stdin = old; f.Close() }()
+	}
+	return c01collect(c, func() (obiiter.IBioSequence, error) {
+		opts := c01opts(c)
+		if c.Stdin {
+			switch c.Api {
+			case "fasta":
+				return obiformats.ReadFastaFromStdin(nil, opts...)
+			case "fastq":
+				return obiformats.ReadFastqFromStdin(nil, opts...)
+			default:
+				return obiformats.ReadSequencesFromStdin(opts...)
+			}
+		}
+		switch c.Api {
+		case "fasta":
+			return obiformats.ReadFastaFromFile(path, opts...)
+		case "fastq":
+			return obiformats.ReadFastqFromFile(path, opts...)
+		case "genbank":
+			return obiformats.ReadGenbankFromFile(path, opts...)
+		case "embl":
+			return obiformats.ReadEMBLFromFile(path, opts...)
+		case "fastseq":
+			return obiformats.ReadFastSeqFromFile(path, opts...)
+		default:
+			return obiformats.ReadSequencesFromFile(path, opts...)
+		}
+	})
+}
+
+// c01guess: OBIMimeTypeGuesser over a reader kind: the type it answers and the bytes of the reader it rebuilds
+func c01guess(c c01case) (o c01obs) {
+	o.Kind = "guess"
+	defer c01guessBuffer(c)()
+	defer func() {
+		if r := recover(); r != nil {
+			o.Fatal = true
+		}
+	}()
+	mime, rd, err := obiformats.OBIMimeTypeGuesser(c01reader(c.Rd, c.File, c.FailAt))
+	if err != nil {
+		o.Fatal = true
+		o.Err = err.Error()
+		return o
+	}
+	o.Mime = mime.String()
+	back, err := io.ReadAll(rd)
+	o.NRead = len(back)
+	o.Same = bytes.Equal(back, c.File)
+	if err != nil {
+		o.Err = err.Error()
+	}
+	return o
+}
+
 func init() {
 	register("c01", func(in *bufio.Reader, out *bufio.Writer) error {
 		log.StandardLogger().ExitFunc = func(int) { panic("log.Fatal") }
@@ -362,9 +596,31 @@ func init() {
 				return c01obs{Kind: "split", Split: c01splitter(c.Fmt)(c.File)}
 			case "read":
 				return c01read(c)
+			case "fromfile":
+				return c01fromfile(c)
+			case "guess":
+				return c01guess(c)
+			case "buf":
+				// xopen.Buf over a reader kind (the data may be compressed): ErrNoContent, another error, or the bytes delivered
+				o := c01obs{Kind: "buf"}
+				r, err := obiformats.Buf(c01reader(c.Rd, c.File, c.FailAt))
+				if err == obiformats.ErrNoContent {
+					o.Err = "nocontent"
+					return o
+				}
+				if err != nil {
+					o.Fatal, o.Err = true, "error: "+err.Error()
+					return o
+				}
+				back, err := io.ReadAll(r)
+				o.Back, o.NRead = back, len(back)
+				if err != nil {
+					o.Fatal, o.Err = true, "error: "+err.Error()
+				}
+				return o
 			case "readfull":
 				// io.ReadFull of bmin bytes, then of bmax bytes, over the reader kind: bytes delivered + error class
-				r := c01reader(c.Rd, c.File)
+				r := c01reader(c.Rd, c.File, c.FailAt)
 				o := c01obs{Kind: "readfull"}
 				for _, n := range []int{c.Bmin, c.Bmax} {
 					buf := make([]byte, n)
